@@ -623,6 +623,28 @@ def gen_rejects(R, rng, quick, fsets):
             while tname == "om_gain" and len(args) < 4: args.append(fs["geom"])      # pass the argc<5 gate: the option check must reject
             if tname == "om_gain" and len(args) - 1 >= len(roles): continue
             rej(tname, args, "%s %s with %d of %d mandatory parameters" % (tname, bname, len(args) - 1, len(roles)), "incomplete")
+    # truncated parameter lists FOLLOWED by another flag: the parameters of an option end at the next '-' argument, so the
+    # line is incomplete whatever is left on it (a flag that combines with every option, an unknown flag, a second option)
+    for tname, doc in DOC.items():
+        t = tools.get(tname)
+        if not t: continue
+        flags = [d["name"] for d in t.get("decls", []) if d["kind"] == "bool"]
+        for b in t["blocks"]:
+            bname = b["aliases"][0]
+            if bname not in doc: continue
+            roles = [r for r in doc[bname]["roles"] if not r.startswith("?")]
+            others = [x["aliases"][0] for x in t["blocks"] if x is not b]
+            tails = [[f] for f in flags] + [["-verbose"], [rng.choice(others), fs["geom"], fs["cond"], o("second.bin")]]
+            if quick: tails = ([[f] for f in flags] or [["-verbose"]]) + [rng.choice(tails)]
+            for tail in tails:
+                drop = rng.randint(1, min(2, len(roles)))
+                args = [rng.choice(b["aliases"])]
+                for r in roles[:len(roles) - drop]:
+                    rr = r.lstrip("=")
+                    args.append(o("never2.bin") if rr.startswith("out") else str(fs.get(rr, "x")))
+                args += tail
+                while tname == "om_gain" and len(args) < 4: args.append(fs["geom"])
+                rej(tname, args, "%s %s with %d of %d mandatory parameters followed by %s" % (tname, bname, len(roles) - drop, len(roles), tail[0]), "incomplete, then a flag")
     rej("om_gain", ["-EEG", fs.get("hminv", "x")], "om_gain -EEG hminv", "fewer than 4 arguments")
     rej("om_gain", ["-XYZ", "a", "b", "c", "d"], "om_gain -XYZ a b c d", "unknown option")
     rej("om_gain", [], "om_gain", "no arguments")
